@@ -47,7 +47,7 @@ class _UpDownLock:
         # the lock is held
         self.count = 0
 
-        # Protects self._count
+        # Protects self.count and self._owners
         self._lock = threading.Lock()
 
         # Dict of threads holding the lock.  Keys are the
@@ -56,69 +56,59 @@ class _UpDownLock:
         self._owners = defaultdict(int)
 
         # Is the lock unlocked?  Handles threads waiting for
-        # unlock.
-        self._is_unlocked = threading.Condition(threading.RLock())
+        # unlock.  The condition shares self._lock so that testing
+        # the lock state and starting to wait is atomic with respect
+        # to release(): otherwise a release() running between the two
+        # notifies nobody and the waiter sleeps on a free lock.
+        self._is_unlocked = threading.Condition(self._lock)
 
     def acquire(self, blocking: bool, timeout: float, is_down: bool) -> bool:
         """Acquire the lock in the specified state."""
 
-        now = time.monotonic()
         me = threading.get_ident()
 
-        # Try to acquire the lock
-        with self._lock:
-            if is_down:
-                ok_to_lock = self.count <= 0
-            else:
-                ok_to_lock = self.count >= 0
+        # Set the first time we need to wait with a timeout
+        end_at = None
 
-            if ok_to_lock:
-                if is_down:
-                    self.count -= 1
-                else:
-                    self.count += 1
-                self._owners[me] += 1
-                return True
-
-            # If we already hold the lock in the other state, fail
-            if self._owners[me] > 0:
-                raise RuntimeError("Can't acquire both locking states.")
-
-        # If not blocking, fail
-        if not blocking:
-            return False
-
-        # Otherwise, wait until unlocked
+        # Holding the condition means holding self._lock
         with self._is_unlocked:
-            if timeout < 0:
-                self._is_unlocked.wait()
-            else:
-                end_at = None
-                notified = False
+            while True:
+                # Try to acquire the lock
+                if is_down:
+                    ok_to_lock = self.count <= 0
+                else:
+                    ok_to_lock = self.count >= 0
 
-                # Wait until either we're notified or else we timeout
-                while not notified and (end_at is None or time.monotonic() < end_at):
-                    # We do it this way to ensure this loop runs at least once
+                if ok_to_lock:
+                    if is_down:
+                        self.count -= 1
+                    else:
+                        self.count += 1
+                    self._owners[me] += 1
+                    return True
+
+                # If we already hold the lock in the other state, fail
+                if self._owners[me] > 0:
+                    raise RuntimeError("Can't acquire both locking states.")
+
+                # If not blocking, fail
+                if not blocking:
+                    return False
+
+                # Otherwise, wait until unlocked (or timeout), then try again.
+                # wait() releases self._lock while waiting.
+                if timeout < 0:
+                    self._is_unlocked.wait()
+                else:
+                    now = time.monotonic()
                     if end_at is None:
                         end_at = now + timeout
 
-                    # This might be negative; threading.condition is okay
-                    # with that (essentially it makes wait() non-blocking)
-                    timeout = end_at - time.monotonic()
-                    notified = self._is_unlocked.wait(timeout)
+                    # If we're out of time, fail
+                    if now >= end_at:
+                        return False
 
-                # If we're out of time, fail
-                if not notified:
-                    return False
-
-                # If we were notfied, but we're also out of time, convert to
-                # non blocking, to try one last time
-                if timeout <= 0:
-                    blocking = False
-
-        # If we got here, we were notified of the lock unlocking; try again,
-        # possibly with a reduced timeout and/or converted to non-blocking
-        return self.acquire(blocking, timeout, is_down)
+                    self._is_unlocked.wait(end_at - now)
 
     def release(self, is_down: bool) -> None:
         """Release the lock with the given state.
@@ -128,7 +118,7 @@ class _UpDownLock:
 
         me = threading.get_ident()
 
-        with self._lock:
+        with self._is_unlocked:
             if is_down:
                 ok_to_unlock = self.count < 0
             else:
@@ -153,8 +143,7 @@ class _UpDownLock:
 
             # If we're now unlocked, notifiy waiters
             if self.count == 0:
-                with self._is_unlocked:
-                    self._is_unlocked.notify_all()
+                self._is_unlocked.notify_all()
 
 
 class _UpDownAccessor:
